@@ -149,7 +149,12 @@ def check_dual(ctx, case, g, m, sig0, with_data=True):
         th = np.array([math.atan2(np.dot(cent[f] - nv, e2), np.dot(cent[f] - nv, e1)) for f in ring])
         rel = np.mod(th - th[0], 2 * math.pi)
         ctx.check("ccw_order", bool(np.all(np.diff(rel) > 1e-12)), sig, {"node": n, "ring": ring, "rel_angles": rel.tolist(), "mesh": d})
-        if interior:
+        # consecutive corners share an edge: only where the faces at the node lie within a hemisphere about it - a face reaching
+        # further round the sphere (edges of almost 180 degrees) has its centre in a direction that says nothing about its wedge
+        local = all(float(np.dot(m.xyz[v], nv)) > 0.1 for f in ring for v in m.faces[f])
+        if interior and not local:
+            ctx.observe("node_with_face_beyond_hemisphere")
+        if interior and local:
             adj = True
             for j in range(len(ring)):
                 a, b = ring[j], ring[(j + 1) % len(ring)]
